@@ -21,6 +21,40 @@ FMT = {
 EPOCH = datetime.datetime(1970, 1, 1)
 
 
+# every spacecraft either reader family can report: (spacecraft id in the header, platform code of the data-set name, pygac's
+# name, a date (year, day of year) inside the spacecraft's operational life).  Written down from the NOAA POD / KLM user's
+# guides (spacecraft id tables, data-set naming), NOT from the readers' tables.
+PLATFORMS = {
+    "klm": [(4, "NK", "noaa15", (1999, 60)), (2, "NL", "noaa16", (2002, 187)), (6, "NM", "noaa17", (2003, 100)),
+            (7, "NN", "noaa18", (2006, 50)), (8, "NP", "noaa19", (2010, 120)), (12, "M2", "metopa", (2008, 200)),
+            (11, "M1", "metopb", (2014, 30)), (13, "M3", "metopc", (2019, 150))],
+    "pod": [(1, "TN", "tirosn", (1979, 100)), (2, "NA", "noaa6", (1981, 50)), (4, "NC", "noaa7", (1983, 20)),
+            (6, "NE", "noaa8", (1984, 100)), (7, "NF", "noaa9", (1986, 200)), (8, "NG", "noaa10", (1988, 150)),
+            (1, "NH", "noaa11", (1990, 80)), (5, "ND", "noaa12", (1993, 250)), (3, "NJ", "noaa14", (2000, 322)),
+            (1, "NH", "noaa11", (1994, 200)), (5, "ND", "noaa12", (1996, 10))],
+}
+
+
+def pod_epoch_of(y, doy):
+    """POD header layout in force on a date: 1 before 8 Sep 1992, 2 up to 15 Nov 1994, 3 afterwards"""
+    d = datetime.date(y, 1, 1) + datetime.timedelta(days=doy - 1)
+    return 1 if d < datetime.date(1992, 9, 8) else (2 if d <= datetime.date(1994, 11, 15) else 3)
+
+
+def platform_pass(ctx, fmt, n, rng, k, msd=None, **kw):
+    """PassBuilder for platform number k (mod the family's list) on a date of that platform's life; returns (builder, name)"""
+    fam = FMT[fmt]["family"]
+    sat_id, plat, name, (y, doy) = PLATFORMS[fam][k % len(PLATFORMS[fam])]
+    if msd is None:
+        msd = 3600000 + 1000 * (rng.randrange(0, 70000))
+    kw.setdefault("start_ms", ydm_to_ms(y, doy, msd))
+    if fam == "pod":
+        kw.setdefault("pod_epoch", pod_epoch_of(y, doy))
+    pb = PassBuilder(ctx, fmt, n, rng, **kw)
+    pb.sat_id, pb.plat = sat_id, plat
+    return pb, name
+
+
 def reader_class(fmt):
     import importlib
     m, c = FMT[fmt]["reader"]
@@ -276,6 +310,12 @@ def tle_dir(ctx):
         os.makedirs(d)
         with open(os.path.join(d, "TLE_noaa14.txt"), "w") as fh:
             fh.write(NOAA14_TLE)
+        # the other POD spacecraft with a clock-error table need a TLE file to be read with default options: the NOAA-14
+        # element sets re-dated to the platform dates of PLATFORMS (the orbit itself does not matter to the checks using them)
+        for _id, _pl, nm, (y, doy) in PLATFORMS["pod"]:
+            if nm in ("noaa7", "noaa9", "noaa11", "noaa12"):
+                with open(os.path.join(d, "TLE_%s.txt" % nm), "a") as fh:
+                    fh.write(retimed_tle(NOAA14_TLE, ["%02d%03d.04713399" % (y % 100, doy), "%02d%03d.96799836" % (y % 100, doy)]))
         src = "/repo/gapfilled_tles/TLE_noaa16.txt"
         if os.path.exists(src):
             import shutil
